@@ -361,7 +361,14 @@ func matchClose(s string, i int) int {
 // ---------------------------------------------------------------------------
 // contract file parsing
 
+type GlobalInv struct {
+	Pkg string
+	C   *Clause
+	File string
+}
+
 type ContractFile struct {
+	GlobalInvs []*GlobalInv
 	Contracts []*Contract
 	Preds     []*Pred
 	Lemmas    []*Lemma
@@ -375,7 +382,7 @@ var loopRe = regexp.MustCompile(`^loop\s+([0-9]+)\s*:\s*(invariant|decreases)\s+
 
 var clauseKeywords = map[string]bool{"func": true, "extern": true, "pred": true, "lemma": true, "axiom": true, "requires": true, "ensures": true,
 	"assigns": true, "pure": true, "wrapping": true, "trusted": true, "inline": true, "props": true, "loop": true, "let": true,
-	"induct": true, "uses": true, "bounded": true, "excluding": true}
+	"induct": true, "uses": true, "bounded": true, "excluding": true, "global-inv": true}
 
 func parseContractFile(path string, pkgPath string) (*ContractFile, error) {
 	f, err := os.Open(path)
@@ -459,6 +466,13 @@ func parseContractFile(path string, pkgPath string) (*ContractFile, error) {
 				return nil, err
 			}
 			cf.Preds = append(cf.Preds, &Pred{Name: m[1], Pkg: pkgPath, Params: bs, Body: c, File: path})
+			cur, curLemma = nil, nil
+		case kw == "global-inv":
+			c, err := mk(rest, rl.line)
+			if err != nil {
+				return nil, err
+			}
+			cf.GlobalInvs = append(cf.GlobalInvs, &GlobalInv{Pkg: pkgPath, C: c, File: path})
 			cur, curLemma = nil, nil
 		case kw == "lemma" || kw == "axiom":
 			m := lemmaHdrRe.FindStringSubmatch(t)
